@@ -333,14 +333,20 @@ _SPEC_N = [0]
 CMD = '/bin/sh -c "cat $VERIF_C10_FILE"'       # the input file is named by an inherited environment variable
 
 
-def make_specs(allow=None, one_call=True, cache=True):
+ALL_OBFUSCATIONS = ["hostname", "ip", "ipv6", "keyword", "mac", "password"]
+
+
+def make_specs(allow=None, one_call=True, cache=True, decl=None):
     """A fresh real SpecSet: registry points plain / filt (filterable) / cmd / cmdfilt (filterable), one
     implementation each (simple_file x2, simple_command x2), and a function datasource `ds` returning a
     DatasourceProvider.  `allow` ({pattern: max_match} or None) is registered on the filterable registry
     points through the real add_filter - in ONE call (list of patterns, common max) or one call per pattern.
+    `decl` ({"no_redact": bool, "no_obfuscate": [...]}) is the spec DECLARATION: it is given to every registry
+    point (RegistryPoint(no_redact=..., no_obfuscate=...)), from where the library copies it to the implementations.
     Nothing is ever removed from the registries: every distinct filter configuration gets its own components
     (cached per process), so no private table of insights.core.filters is touched."""
-    key = json.dumps([allow, one_call], sort_keys=True)
+    decl = dict(decl or {})
+    key = json.dumps([allow, one_call, decl], sort_keys=True)
     if cache and key in _SPEC_CACHE:
         return _SPEC_CACHE[key]
     from insights.core import filters
@@ -350,21 +356,21 @@ def make_specs(allow=None, one_call=True, cache=True):
     _SPEC_N[0] += 1
     n = _SPEC_N[0]
     meta = type(SpecSet)
+    def verif_c10_lines(broker):
+        return DatasourceProvider(list(broker["verif_c10_content"]), "c10/ds.txt", ds=impl.ds,
+                                  ctx=broker[HostContext], cleaner=broker.get("cleaner"))
+    verif_c10_lines.__name__ = "verif_c10_lines%d" % n
+    verif_c10_lines = datasource(HostContext)(verif_c10_lines)
     reg = meta("VerifC10Specs%d" % n, (SpecSet,), {
-        "__module__": __name__, "plain": RegistryPoint(), "filt": RegistryPoint(filterable=True),
-        "cmd": RegistryPoint(), "cmdfilt": RegistryPoint(filterable=True)})
+        "__module__": __name__, "plain": RegistryPoint(**decl), "filt": RegistryPoint(filterable=True, **decl),
+        "cmd": RegistryPoint(**decl), "cmdfilt": RegistryPoint(filterable=True, **decl), "ds": RegistryPoint(**decl)})
     impl = meta("VerifC10Impl%d" % n, (reg,), {
         "__module__": __name__,
         "plain": simple_file("c10/plain.txt", context=HostContext),
         "filt": simple_file("c10/filt.txt", context=HostContext),
         "cmd": simple_command(CMD, context=HostContext, inherit_env=["VERIF_C10_FILE"]),
-        "cmdfilt": simple_command(CMD, context=HostContext, inherit_env=["VERIF_C10_FILE"])})
-
-    def verif_c10_lines(broker):
-        return DatasourceProvider(list(broker["verif_c10_content"]), "c10/ds.txt", ds=verif_c10_lines,
-                                  ctx=broker[HostContext], cleaner=broker.get("cleaner"))
-    verif_c10_lines.__name__ = "verif_c10_lines%d" % n
-    verif_c10_lines = datasource(HostContext)(verif_c10_lines)
+        "cmdfilt": simple_command(CMD, context=HostContext, inherit_env=["VERIF_C10_FILE"]),
+        "ds": verif_c10_lines})
     if allow:
         for rp in (reg.filt, reg.cmdfilt):
             if one_call:
@@ -375,7 +381,7 @@ def make_specs(allow=None, one_call=True, cache=True):
             else:
                 for k in sorted(allow):
                     filters.add_filter(rp, k, max_match=allow[k])
-    sp = {"plain": impl.plain, "filt": impl.filt, "cmd": impl.cmd, "cmdfilt": impl.cmdfilt, "ds": verif_c10_lines}
+    sp = {"plain": impl.plain, "filt": impl.filt, "cmd": impl.cmd, "cmdfilt": impl.cmdfilt, "ds": impl.ds}
     if cache:
         _SPEC_CACHE[key] = sp
     return sp
